@@ -111,6 +111,10 @@ pub struct Resolver<'ast, 'res> {
     // Track the statement currently being analyzed so local use facts can be attached once.
     current_stmt: Option<StmtId>,
 
+    // Body whose `return` expressions are being typed while the functions of a block are
+    // pre-declared (None while statements are checked)
+    signature_body: Option<BlockRef<'ast>>,
+
     /// Collection of semantic errors found during analysis
     pub errors: Diagnostics<'res>,
 
@@ -138,6 +142,7 @@ impl<'ast, 'res> Resolver<'ast, 'res> {
             in_loop: 0,
             scope_stack: Vec::new_in(arena),
             current_stmt: None,
+            signature_body: None,
             errors: Diagnostics::new(arena),
             facts: ProgramFacts::new(facts_arena),
             optimization_plan: None,
@@ -559,7 +564,9 @@ impl<'ast, 'res> Resolver<'ast, 'res> {
         for _ in 0..pending.len() {
             let mut changed = false;
             for pending_def in &pending {
+                self.signature_body = Some(pending_def.body);
                 let return_type = self.infer_function_return_type(pending_def.body);
+                self.signature_body = None;
                 let current_scope = self
                     .function_scopes
                     .last_mut()
@@ -1313,6 +1320,10 @@ impl<'ast, 'res> Resolver<'ast, 'res> {
             Expr::Bool(..) => Some(ValueType::Bool),
             Expr::Array { .. } => Some(ValueType::Array),
             Expr::Index { .. } => Some(ValueType::Dynamic),
+            // A signature is inferred when the enclosing block is entered: the scopes do not
+            // hold the function's parameters and locals yet, nor the declarations that precede
+            // the definition, so a name says nothing about the type the body will see.
+            Expr::Var(..) if self.signature_body.is_some() => Some(ValueType::Dynamic),
             Expr::Var(v, ..) => self.lookup_var_info(v).map(|(t, _)| t),
             Expr::Binary { op, lhs, rhs, .. } => {
                 let l = self.infer_expr_type(lhs)?;
@@ -1382,6 +1393,13 @@ impl<'ast, 'res> Resolver<'ast, 'res> {
                 Expr::Var(func_name, ..) => {
                     if let Some(builtin) = GlobalBuiltin::from_name(func_name) {
                         Some(builtin.return_type())
+                    } else if self
+                        .signature_body
+                        .is_some_and(|body| Self::block_defines_function(body, func_name))
+                    {
+                        // The callee is nested in the body and hides any outer function of
+                        // that name; it is pre-declared only when the body is checked.
+                        Some(ValueType::Dynamic)
                     } else {
                         self.lookup_func(func_name).map(|func_sig| func_sig.return_type)
                     }
@@ -1417,6 +1435,22 @@ impl<'ast, 'res> Resolver<'ast, 'res> {
                 _ => None,
             },
         }
+    }
+
+    /// Whether `block` (nested blocks included, nested function bodies excluded) defines a
+    /// function called `name`.
+    fn block_defines_function(block: BlockRef<'ast>, name: &str) -> bool {
+        block.stmts.iter().any(|stmt| match stmt {
+            Stmt::FunctionDef { name: defined, .. } => *defined == name,
+            Stmt::If { then_b, else_b, .. } => {
+                Self::block_defines_function(then_b, name)
+                    || else_b.is_some_and(|eb| Self::block_defines_function(eb, name))
+            }
+            Stmt::Loop { body, .. } | Stmt::Block { block: body, .. } => {
+                Self::block_defines_function(body, name)
+            }
+            _ => false,
+        })
     }
 
     fn infer_function_return_type(&self, body: BlockRef<'ast>) -> ValueType {
